@@ -54,9 +54,9 @@ type Net struct {
 	tickets   int
 	dead      bool
 
-	Latency time.Duration                     // one-way latency
+	Latency time.Duration                       // one-way latency
 	Plan    func(idx int, addr string) ConnPlan // nil: no faults
-	Hosts   map[string]string                 // host name -> IP
+	Hosts   map[string]string                   // host name -> IP
 	// PartitionFrom/PartitionTo: segments that would become visible inside the window are held until its end.
 	PartitionFrom, PartitionTo time.Time
 
